@@ -585,6 +585,12 @@ func lifeTxCase(t *rapid.T) {
 			}
 			a, b := errStr(l.tx.Validate()), errStr(fresh.Validate())
 			h.op(op, "%s", a)
+			if l.tx.Module != fresh.Module || l.tx.Command != fresh.Command {
+				// a string that is not in NFC: the encoding normalises it, Validate looks at the Go string - two representations of
+				// the same value (the statement identifies them), nothing about the life of the struct
+				evid.R.Label("life:Transaction:validate_not_compared(nonNFC string)", 1)
+				break
+			}
 			if !sameVerdict(a, b) {
 				h.fatal(t, "Validate() of the struct in use: %s, of a fresh decode of its encoding: %s", a, b)
 			}
@@ -1119,26 +1125,26 @@ var blkMutKinds = []string{"header", "header", "tx", "tx", "tx", "add_tx", "add_
 // mutateBlock modifies the block in use: a header field, a field of one of its transactions, a transaction added (a new one
 // without ID, or a Copy() of one it holds with the next nonce - which carries the original's ID and size), removed, an asset
 // changed, or everything brought into the shape Block.Validate accepts (roots computed by the harness).
-func mutateBlock(t *rapid.T, l *blkLife, label string) string {
+func mutateBlock(t *rapid.T, l *blkLife, label string) (kind, desc string) {
 	b := l.b
-	kind := rapid.SampledFrom(blkMutKinds).Draw(t, label+"_what")
+	kind = rapid.SampledFrom(blkMutKinds).Draw(t, label+"_what")
 	pickTx := func() int { return rapid.IntRange(0, len(b.Transactions)-1).Draw(t, label+"_txi") }
 	switch kind {
 	case "header":
-		return "header: " + mutateHeader(t, b.Header, label)
+		return "header", "header: " + mutateHeader(t, b.Header, label)
 	case "tx":
 		if len(b.Transactions) > 0 {
 			i := pickTx()
-			return fmt.Sprintf("transaction %d: %s", i, mutateTx(t, b.Transactions[i], label))
+			return "tx", fmt.Sprintf("transaction %d: %s", i, mutateTx(t, b.Transactions[i], label))
 		}
 		fallthrough
 	case "add_tx":
 		b.Transactions = append(b.Transactions, genTx(t, label+".newtx"))
-		return "new transaction appended"
+		return "add_tx", "new transaction appended"
 	case "add_copy_next_nonce":
 		if len(b.Transactions) == 0 {
 			b.Transactions = append(b.Transactions, genTx(t, label+".newtx"))
-			return "new transaction appended"
+			return "add_tx", "new transaction appended"
 		}
 		i := pickTx()
 		orig := b.Transactions[i]
@@ -1152,24 +1158,24 @@ func mutateBlock(t *rapid.T, l *blkLife, label string) string {
 		} else {
 			b.Transactions = append(b.Transactions, c)
 		}
-		return fmt.Sprintf("Copy() of transaction %d with the next nonce added", i)
+		return "add_copy_next_nonce", fmt.Sprintf("Copy() of transaction %d with the next nonce added", i)
 	case "remove_tx":
 		if len(b.Transactions) > 0 {
 			i := pickTx()
 			b.Transactions = append(b.Transactions[:i:i], b.Transactions[i+1:]...)
-			return fmt.Sprintf("transaction %d removed", i)
+			return "remove_tx", fmt.Sprintf("transaction %d removed", i)
 		}
-		return "header: " + mutateHeader(t, b.Header, label)
+		return "header", "header: " + mutateHeader(t, b.Header, label)
 	case "asset":
 		if len(b.Assets) > 0 && rapid.Bool().Draw(t, label+"_assetmod") {
 			a := b.Assets[rapid.IntRange(0, len(b.Assets)-1).Draw(t, label+"_ai")]
 			if !flipBit(t, a.Data, label) {
 				a.Data = []byte{1}
 			}
-			return "asset data changed in place"
+			return "asset", "asset data changed in place"
 		}
 		b.Assets = append(b.Assets, genStruct(t, assetType, label+".newasset", 0, newGenInfo()).Interface().(*blockchain.BlockAsset))
-		return "asset appended"
+		return "asset", "asset appended"
 	default: // make_valid
 		for i, tx := range b.Transactions {
 			if tx.Validate() != nil {
@@ -1190,7 +1196,7 @@ func mutateBlock(t *rapid.T, l *blkLife, label string) string {
 		hd.PreviousBlockID = rapid.SliceOfN(rapid.Byte(), 32, 32).Draw(t, label+"_prev")
 		hd.GeneratorAddress = rapid.SliceOfN(rapid.Byte(), 20, 20).Draw(t, label+"_gen")
 		hd.Signature = rapid.SliceOfN(rapid.Byte(), 64, 64).Draw(t, label+"_sig")
-		return "made valid (transactions valid-shaped, roots from harness-computed IDs)"
+		return "make_valid", "made valid (transactions valid-shaped, roots from harness-computed IDs)"
 	}
 }
 
@@ -1302,15 +1308,18 @@ func lifeBlkCase(t *rapid.T) {
 			l.init(t, "Block.Init")
 		case "mutate", "mutate_init":
 			before := l.b.Encode()
-			kind := mutateBlock(t, l, lb)
+			mk, kind := mutateBlock(t, l, lb)
 			h.op(op, "%s -> %s", kind, renderBlkShort(l.b))
 			l.dirty = true
 			if !bytes.Equal(before, l.b.Encode()) {
 				evid.R.Label("life:Block:mutation_changed_encoding", 1)
 			}
-			evid.R.Label("life_op:Block:mutation="+strings.SplitN(kind, ":", 2)[0], 1)
+			evid.R.Label("life_op:Block:mutation="+mk, 1)
 			if op == "mutate_init" {
 				l.init(t, "Block.Init after: "+kind)
+				if mk == "make_valid" {
+					lifeBlkValidate(t, l)
+				}
 			}
 		case "decode_init", "decode_strict_init":
 			raw, other, kind := otherBlockBytes(t, lb)
@@ -1380,20 +1389,7 @@ func lifeBlkCase(t *rapid.T) {
 			if l.dirty {
 				l.init(t, "Block.Init before Validate")
 			}
-			// Validate (transaction root over the IDs, asset root) is a function of the content
-			enc := l.b.Encode()
-			fresh, err := blockchain.NewBlock(enc)
-			if err != nil {
-				h.fatal(t, "NewBlock rejects the block's own encoding %s: %v", clipHex(enc), err)
-			}
-			a, b := errStr(l.b.Validate()), errStr(fresh.Validate())
-			h.op(op, "%s", clipStr(a))
-			if !sameVerdict(a, b) {
-				h.fatal(t, "Validate() of the block in use: %s; of NewBlock(its encoding): %s", a, b)
-			}
-			if a == "<nil>" {
-				evid.R.Label("life:Block:validate_ok", 1)
-			}
+			lifeBlkValidate(t, l)
 		case "store":
 			l.b.Header.Height = h.nextHeight(t) // a field change followed by Block.Init
 			l.dirty = true
@@ -1405,6 +1401,37 @@ func lifeBlkCase(t *rapid.T) {
 	h.op("final_init", "")
 	final := l.init(t, "final Block.Init")
 	h.register(final)
+}
+
+// lifeBlkValidate: Validate (transaction root over the transaction IDs, asset root) is a function of the content: the block in
+// use (derived values current) gives the verdict that NewBlock(its encoding) gives.
+func lifeBlkValidate(t *rapid.T, l *blkLife) {
+	h := l.h
+	enc := l.b.Encode()
+	fresh, err := blockchain.NewBlock(enc)
+	if err != nil {
+		h.fatal(t, "NewBlock rejects the block's own encoding %s: %v", clipHex(enc), err)
+	}
+	a, b := errStr(l.b.Validate()), errStr(fresh.Validate())
+	h.op("validate", "%s", clipStr(a))
+	sameStrings := len(fresh.Transactions) == len(l.b.Transactions) && len(fresh.Assets) == len(l.b.Assets)
+	for j := 0; sameStrings && j < len(fresh.Transactions); j++ {
+		sameStrings = fresh.Transactions[j].Module == l.b.Transactions[j].Module && fresh.Transactions[j].Command == l.b.Transactions[j].Command
+	}
+	for j := 0; sameStrings && j < len(fresh.Assets); j++ {
+		sameStrings = fresh.Assets[j].Module == l.b.Assets[j].Module
+	}
+	if !sameStrings {
+		// a string that is not in NFC: the encoding normalises it, Validate looks at the Go string (see the transaction case)
+		evid.R.Label("life:Block:validate_not_compared(nonNFC string)", 1)
+		return
+	}
+	if !sameVerdict(a, b) {
+		h.fatal(t, "Validate() of the block in use: %s; of NewBlock(its encoding): %s", a, b)
+	}
+	if a == "<nil>" {
+		evid.R.Label("life:Block:validate_ok", 1)
+	}
 }
 
 func TestLifeCycleBlock(t *testing.T) { checkScaled(t, 0.025, lifeBlkCase) }
